@@ -32,7 +32,7 @@ def guard_roles(tm):
     vs = tm.variants(g.drop_fn)
     for v in vs:
         for ev in code_writes(v):
-            a = self_field(ev.extra["dst"].e)
+            a = self_field(resolve_alias(v, ev.extra["dst"])[0].e)
             if a:
                 g.addr = a
             ce = ev.extra["count"].e
